@@ -26,8 +26,8 @@ def run(ck):
                 out.write(open(ti).read())
             os.remove(ti)
     ck.trace("threads", "Trace_Threads", "Trace.cfg", t, nchunks=16, boundary=lambda ln: '"Start"' in ln,
-             what="%d executions x %d rounds on T = 2,3,4,8,16 threads of a 48-call mixed workload (boundaries and areas incl. pentagons, "
-                  "indexing, disks, children+compaction, both polyfills in all modes, multipolygon, paths, vertexes/edges, faces, "
+             what="%d executions x %d rounds on T = 2,3,4,8,16 threads of a 96-call mixed workload (boundaries and areas incl. pentagons, "
+                  "indexing, disks, children+compaction, both polyfills in all modes with and without a hole, multipolygons without / with one hole / with nested rings and several outer loops, unsafe rings and disks, uncompaction, paths, local IJ, directed edges, vertexes/edges, faces, "
                   "hierarchy positions, enumerations); each return digest vs the sequential reference, hash of libh3.so's writable "
                   "segments sampled every 8th call" % (nexec, rounds))
     # ThreadSanitizer: the sound detector for the no-shared-write clause
